@@ -170,9 +170,41 @@ Fixpoint keys_distinct (v : val) : bool :=
          end) es
   | _ => true
   end.
+(* further values / types outside the round-trip universe (found while proving, each refuted without it in Proto/RoundTrip.v):
+   - a top-level pointer to an EMPTY RawMessage encodes to nothing, and the empty input resets the target to nil;
+   - a struct tag with the option "rep" on a field that is neither a slice nor a map puts the field in the repeated pass,
+     which writes no tag (generated code never does this). *)
+Fixpoint top_raw_empty (v : val) : bool :=
+  match v with VPtr (Some x) => top_raw_empty x | VRaw _ [] => true | _ => false end.
+Definition top_ok (v : val) : bool := match v with VPtr (Some x) => negb (top_raw_empty x) | _ => true end.
+Definition tag_rep_ok (tag : option ptag) (ft : gty) : bool :=
+  match ft with
+  | TSlice _ | TMap _ _ => true
+  | _ => match tag with Some tg => negb (tag_repeated tg) | None => true end
+  end.
+Fixpoint rep_tags_ok (t : gty) : bool :=
+  match t with
+  | TPtr t' => rep_tags_ok t'
+  | TSlice t' => rep_tags_ok t'
+  | TMap k v => rep_tags_ok k && rep_tags_ok v
+  | TStruct fs => (fix go (fs : list gfield) : bool :=
+                     match fs with
+                     | [] => true
+                     | GField _ tag ft :: r => tag_rep_ok tag ft && rep_tags_ok ft && go r
+                     end) fs
+  | _ => true
+  end.
+
+(* Unmarshal(Marshal(&v)) reproduces v up to the nil-versus-empty distinction (both sides normalised) *)
 Definition roundtrip_statement : Prop :=
   forall t v bs, in_universe t v -> representable v = true -> keys_distinct v = true ->
+    rep_tags_ok t = true -> top_ok v = true -> Size (TPtr t) (VPtr (Some v)) < lim ->
     (* zigzag on repeated fields is dropped consistently on both sides, so the round trip holds with it *)
+    Marshal (TPtr t) (VPtr (Some v)) = Ok (Some bs) ->
+    exists fuel r, Unmarshal fuel t bs (zero_val t) = Ok (Some r) /\ norm r = norm v.
+(* the naive form (result syntactically equal to norm v, no extra hypotheses) is false *)
+Definition roundtrip_naive_statement : Prop :=
+  forall t v bs, in_universe t v -> representable v = true -> keys_distinct v = true ->
     Marshal (TPtr t) (VPtr (Some v)) = Ok (Some bs) ->
     exists fuel, Unmarshal fuel t bs (zero_val t) = Ok (Some (norm v)).
 (* F17, stated positively: what a non-representable pointer decodes to *)
